@@ -658,6 +658,13 @@ def _handler_names():
     return sorted(set(SymtableCodeGen.handlersTable) | set(IntermediateCodeGen.handlersTable))
 
 
+# a row type named like one of Python's constants (K15: names that are Python key words)
+for _nm in ('True', 'False', 'None'):
+    ODD.append(('row-type-named-like-a-python-constant',
+                'tTable OBJECT-TYPE SYNTAX SEQUENCE OF %(n)s MAX-ACCESS not-accessible STATUS current DESCRIPTION "d" ::= { enterprises 1 }\n'
+                'tEntry OBJECT-TYPE SYNTAX %(n)s MAX-ACCESS not-accessible STATUS current DESCRIPTION "d" INDEX { tIdx } ::= { tTable 1 }\n'
+                '%(n)s ::= SEQUENCE { tIdx INTEGER }\n'
+                'tIdx OBJECT-TYPE SYNTAX INTEGER MAX-ACCESS read-only STATUS current DESCRIPTION "d" ::= { tEntry 1 }\n' % {'n': _nm}))
 for _nm in _handler_names():
     if _nm[:1].islower() and _nm.replace('-', '').isalnum():
         ODD.append(('augments-spelled-like-a-sub-tree-kind', OT % ('AUGMENTS { %s(1) }' % _nm)))
